@@ -45,14 +45,14 @@ def homeSym : String := "48"
 /-- `c17.req` / `c17.two`: MakeRequest against the home peer that answers `rpc_error code msg`; the data centres of
 `over` are peers that answer pong, or — `second = some (code2, msg2)` — an error the client returns. The
 model: the decision of `onRpcError`; a migration is followed by one more request at the new address. -/
-def reqOutcome (over : DCList) (c : Int) (m : Bytes) (second : Option (Int × Bytes)) : String :=
+def reqOutcome (over : DCList) (c : Int) (m : Bytes) (second : Option (Int × Bytes)) (value : String := "") : String :=
   let dcl := setDCList Gen.defaultDCList over
   match onRpcError dcl c m with
   | .ok (e, .returned) => s!"outcome=returned {showErr e} reqs={homeSym}:1"
   | .ok (e, .dcNotFound n) => s!"outcome=notfound dc={n} {showErr e} reqs={homeSym}:1"
   | .ok (_, .migrate _ a) =>
     match second with
-    | none => s!"outcome=answered by={toHexD a} reqs={homeSym}:1,{toHexD a}:1"
+    | none => s!"outcome=answered by={toHexD a}{value} reqs={homeSym}:1,{toHexD a}:1"
     | some (c2, m2) =>
       match onRpcError dcl c2 m2 with
       | .ok (e2, .returned) => s!"outcome=returned {showErr e2} reqs={homeSym}:1,{toHexD a}:1"
@@ -69,8 +69,31 @@ def secondReturned (c2 : Int) (m2 : Bytes) : Bool :=
   | .ok e => match processErr [] e.message e.param with | .returned => true | _ => false
   | _ => true
 
+/-- the kind of a call (`c17.call` / `c17.home`): what its answer is -/
+def kindOk (tok : String) : Bool :=
+  match tok.splitOn ":" with
+  | ["obj"] => true
+  | ["bool", "t"] => true
+  | ["bool", "f"] => true
+  | [k, n] =>
+    (k == "vlong" || k == "vint" || k == "vobj") &&
+      (match n.toNat? with | some v => v ≤ 100000 && toString v == n | none => false)
+  | _ => false
+
+def shapeOk (s : String) : Bool := ["plain", "gz", "cont", "cgz"].contains s
+
 /-- operations of property C17 -/
 def handle : List String → String
+  -- every kind of call through the request path: the decision is that of `c17.req` — what the call's answer is
+  -- and how it is delivered do not enter; the caller gets the value of the peer the model says answers
+  | ["c17.home", kind, shape] =>
+    if kindOk kind && shapeOk shape then s!"outcome=answered by={homeSym} value={kind} reqs={homeSym}:1" else "bad-op"
+  | ["c17.call", kind, shape, dcs, code, msg] =>
+    if !(kindOk kind && shapeOk shape) then "bad-op" else
+    match parseDcs? dcs, code.toInt?, fromHex? msg with
+    | some over, some c, some m =>
+      if c < -2147483648 || c > 2147483647 then "bad-op" else reqOutcome over c m none s!" value={kind}"
+    | _, _, _ => "bad-op"
   | ["c17.req", dcs, code, msg] =>
     match parseDcs? dcs, code.toInt?, fromHex? msg with
     | some over, some c, some m => reqOutcome over c m none
